@@ -76,6 +76,24 @@ type Driver struct {
 	Think func() time.Duration
 	// AfterOp, when set, runs after every executed operation.
 	AfterOp func(d *Driver) *Violation
+	// StepErr is the error the step's primary storage call returned (nil on success).
+	StepErr    error
+	stepErrSet bool
+	// LastOp describes the last executed operation.
+	LastOp string
+}
+
+// Fork returns a driver on another storage (a restarted or forked world) that
+// continues from a deep copy of this driver's model and id maps.
+func (d *Driver) Fork(st storage.Storage) *Driver {
+	n := &Driver{rc: d.rc, St: st, M: d.M.Clone(), Cfg: d.Cfg, ctx: d.ctx, real: map[string]string{}, uploads: map[string]storage.UploadId{}, lastMod: map[string]time.Time{}, wasLatest: map[string]bool{}, opN: d.opN}
+	for k, v := range d.real {
+		n.real[k] = v
+	}
+	for k, v := range d.uploads {
+		n.uploads[k] = v
+	}
+	return n
 }
 
 func NewDriver(rc *RunCtx, st storage.Storage, cfg DriverCfg) *Driver {
@@ -141,6 +159,11 @@ func absentKind(k model.ErrKind) bool {
 
 // agree compares the outcome class of an operation.
 func (d *Driver) agree(op string, want model.ErrKind, err error) *Violation {
+	if !d.stepErrSet {
+		d.stepErrSet = true
+		d.StepErr = err
+		d.LastOp = op
+	}
 	got := classify(err)
 	if want == model.OK && got != model.OK {
 		if seams.IsInjected(err) {
@@ -396,6 +419,7 @@ func (d *Driver) Step(g *sim.Tape) (*Violation, error) {
 	if d.Think != nil {
 		d.rc.S.Sleep(d.Think())
 	}
+	d.StepErr, d.stepErrSet, d.LastOp = nil, false, ""
 	c := &d.Cfg
 	weights := []int{c.WBucket, c.WVersioning, c.WPut, c.WGet, c.WDelete, c.WDeleteVersion, c.WMultiDelete, c.WCopy, c.WAppend, c.WMultipart, c.WTagging, c.WTransition, c.WList, c.WRange}
 	total := 0
